@@ -3,6 +3,7 @@ package rules
 import (
 	"fmt"
 	"go/types"
+	"strings"
 
 	"golang.org/x/tools/go/ssa"
 
@@ -42,30 +43,97 @@ func freeVar(cl *ssa.Function, name string) *ssa.FreeVar {
 	return nil
 }
 
+// sharedResultCell finds the place where a response handler leaves its result
+// for the function that built it: a local variable of type *elem that the
+// handler literal captures (the address is the literal's free variable inside
+// it, the bound cell outside), or a field of type *elem of a module struct that
+// the enclosing function allocates itself and the handler reaches through a
+// captured pointer (`q := &blockQuery{..}; HandleResp: q.handleResponse`). The
+// predicate recognises addresses of that place in either function.
+func (c *Ctx) sharedResultCell(outer, handler *ssa.Function, elem *types.Named) func(ssa.Value) bool {
+	if elem == nil {
+		return nil
+	}
+	isPtrToElem := func(t types.Type) bool {
+		p, ok := t.(*types.Pointer)
+		return ok && types.Identical(p.Elem(), elem)
+	}
+	// captured local
+	for i, fv := range handler.FreeVars {
+		pt, ok := fv.Type().(*types.Pointer)
+		if !ok || !isPtrToElem(pt.Elem()) {
+			continue
+		}
+		var binding ssa.Value
+		ir.Instrs(outer, func(in ssa.Instruction) {
+			if mc, ok := in.(*ssa.MakeClosure); ok && mc.Fn == ssa.Value(handler) && i < len(mc.Bindings) {
+				binding = mc.Bindings[i]
+			}
+		})
+		fvv := ssa.Value(fv)
+		return func(v ssa.Value) bool { return v == fvv || (binding != nil && v == binding) }
+	}
+	// field of a struct allocated by the enclosing function
+	var field *types.Var
+	ir.Instrs(handler, func(in ssa.Instruction) {
+		st, ok := in.(*ssa.Store)
+		if !ok {
+			return
+		}
+		fa, ok := st.Addr.(*ssa.FieldAddr)
+		if !ok {
+			return
+		}
+		f := ir.FieldOfAddr(fa)
+		if f == nil || !isPtrToElem(f.Type()) {
+			return
+		}
+		pt, ok := fa.X.Type().Underlying().(*types.Pointer)
+		if !ok {
+			return
+		}
+		named, ok := pt.Elem().(*types.Named)
+		if !ok || named.Obj().Pkg() == nil || !strings.HasPrefix(named.Obj().Pkg().Path(), ir.ModPath) {
+			return
+		}
+		allocated := false
+		ir.Instrs(outer, func(x ssa.Instruction) {
+			if al, ok := x.(*ssa.Alloc); ok {
+				if ap, ok := al.Type().(*types.Pointer); ok && types.Identical(ap.Elem(), named) {
+					allocated = true
+				}
+			}
+		})
+		if allocated {
+			field = f
+		}
+	})
+	if field == nil {
+		return nil
+	}
+	return func(v ssa.Value) bool {
+		fa, ok := v.(*ssa.FieldAddr)
+		return ok && ir.FieldOfAddr(fa) == field
+	}
+}
+
 func runC06(c *Ctx) {
 	c.rule("C06.O3", "any other response is ignored and the request retried with other peers: "+attemptBoundedDoc, func() { c.attemptBounded() })
 	c.rule("C06.G1", "GetBlock's response handler accepts a block (store to foundBlock, positive Progress) only behind: resp.(*wire.MsgBlock) ok, response.BlockHash() == requested hash, blockchain.CheckBlockSanity=nil and blockchain.ValidateWitnessCommitment=nil, both applied to the block built from that response", func() {
 		gb := c.fn(fnGetBlock)
 		cl := c.handleRespOf(gb)
-		// the captured result cell: the free variable whose cell GetBlock returns
-		var resultCell *ssa.FreeVar
+		// the result cell shared by GetBlock and its handler
 		blockT := c.P.Named(pBtcutil, "Block")
 		if blockT == nil {
 			panic(anchorErr{"btcutil.Block"})
 		}
-		for _, fv := range cl.FreeVars {
-			if pt, ok := fv.Type().(*types.Pointer); ok {
-				if p2, ok := pt.Elem().(*types.Pointer); ok && types.Identical(p2.Elem(), blockT) {
-					resultCell = fv
-				}
-			}
-		}
-		if resultCell == nil {
+		isResultCell := c.sharedResultCell(gb, cl, blockT)
+		if isResultCell == nil {
 			panic(anchorErr{"captured *btcutil.Block result variable of GetBlock's handler"})
 		}
 		stores := find(cl, func(in ssa.Instruction) bool {
 			st, ok := in.(*ssa.Store)
-			return ok && st.Addr == ssa.Value(resultCell)
+			return ok && isResultCell(st.Addr)
 		})
 		eff := append(append([]ssa.Instruction{}, stores...), progressReturns(cl, true)...)
 		const en = "accept block (foundBlock = block / positive progress)"
@@ -89,13 +157,10 @@ func runC06(c *Ctx) {
 			if mc, ok := in.(*ssa.MakeClosure); ok && mc.Fn == ssa.Value(cl) {
 				for i, b := range mc.Bindings {
 					if cl.FreeVars[i] == hashCell {
-						// parameter spilled into a cell: alloc whose first store is the param
-						if a, ok := b.(*ssa.Alloc); ok {
-							for _, st := range ir.StoresTo(a) {
-								if st.Val == ssa.Value(gb.Params[1]) {
-									okBind = true
-								}
-							}
+						// parameter spilled into a cell (or a cell that only
+						// ever holds a copy of it)
+						if paramOrSpill(gb.Params[1])(b) {
+							okBind = true
 						}
 					}
 				}
@@ -119,7 +184,7 @@ func runC06(c *Ctx) {
 		gHash := equalIs("response.BlockHash() vs blockHash", find(cl, binops(eqOps, isRespHash, isReqHash)), true)
 		c.guarded(cl, gHash, 1, en, eff, 2, gDominate)
 		c.rule("C06.V4", "the ban of an invalid block\x27s sender is not lost to a concurrent lookup: "+banStoreDisciplineDoc, func() { c.banStoreDiscipline() })
-	c.rule("C06.V3", "the sender of an invalid block stays out: "+banKeyAgreementDoc, func() { c.banKeyAgreement() })
+		c.rule("C06.V3", "the sender of an invalid block stays out: "+banKeyAgreementDoc, func() { c.banKeyAgreement() })
 		c.rule("C06.O5", "the retry of a block request still answers the caller: "+noJobLostDoc, func() { c.noJobLost() })
 		c.rule("C06.O4", "every response that carries the requested hash is examined on its own: the handler is one closure shared by all attempts and peers of a GetBlock call, so from the edge on which the response's hash equals the requested one every path to a return passes blockchain.CheckBlockSanity - nothing remembered from an earlier response (an earlier sender's invalid block, a flag) lets a later response be dropped unvalidated, which would discard an honest peer's block and leave a second bad sender unbanned", func() {
 			c.mustFollow(cl, "the response carries the requested hash", c.successEdges(gHash), callTo(c.funcObj(pBlockchain, "CheckBlockSanity")), "blockchain.CheckBlockSanity", nil, 1)
@@ -190,27 +255,16 @@ func runC06(c *Ctx) {
 		lruGet := c.method("cache/lru", "Cache", "Get")
 		lruPut := c.method("cache/lru", "Cache", "Put")
 		bc := c.field("neutrino", "ChainService", "BlockCache")
-		// the cell captured by the handler
-		var cell ssa.Value
-		ir.Instrs(gb, func(in ssa.Instruction) {
-			if mc, ok := in.(*ssa.MakeClosure); ok && mc.Fn == ssa.Value(cl) {
-				for _, b := range mc.Bindings {
-					if pt, ok := b.Type().(*types.Pointer); ok {
-						if p2, ok := pt.Elem().(*types.Pointer); ok && p2.Elem().String() == c.P.Named(pBtcutil, "Block").String() {
-							cell = b
-						}
-					}
-				}
-			}
-		})
-		if cell == nil {
+		// the result cell shared with the handler
+		isCell := c.sharedResultCell(gb, cl, c.P.Named(pBtcutil, "Block"))
+		if isCell == nil {
 			panic(anchorErr{"foundBlock cell of GetBlock"})
 		}
 		src := func(v ssa.Value) bool {
 			if call, ok := v.(*ssa.Call); ok && callTo(lruGet)(call) && loadsField(bc)(call.Call.Args[0]) {
 				return true
 			}
-			return v == cell
+			return isCell(v)
 		}
 		// DerivesFrom treats a load of an Alloc through its stores; here the cell
 		// is written by the closure, so accept a direct load of the cell.
@@ -221,7 +275,7 @@ func runC06(c *Ctx) {
 			if ir.IsNil(v) {
 				continue
 			}
-			if ld, ok := v.(*ssa.UnOp); ok && ld.X == cell {
+			if ld, ok := v.(*ssa.UnOp); ok && isCell(ld.X) {
 				good = append(good, in)
 			} else if ir.DerivesFrom(v, src) {
 				good = append(good, in)
@@ -240,7 +294,7 @@ func runC06(c *Ctx) {
 				return
 			}
 			for _, op := range []ssa.Value{b.X, b.Y} {
-				if ld, ok := op.(*ssa.UnOp); ok && ld.X == cell {
+				if ld, ok := op.(*ssa.UnOp); ok && isCell(ld.X) {
 					other := b.X
 					if other == op {
 						other = b.Y
